@@ -756,6 +756,207 @@ theorem setPassword_statement_render_parse (text : Str) (params : List (Str × B
   obtain ⟨s', h1, _⟩ := setPassword_render_parse _ s g1 sp g2 g3 name pw _ hL2 hs
   exact ⟨s', h1⟩
 
+/-! ### GRANT, REVOKE -/
+
+/-- How a privilege is written: `READ`, `WRITE`, `ALL PRIVILEGES`, or `ALL` alone (the grammar's
+`ALL [PRIVILEGES]`), keywords in any case after any gaps. -/
+inductive PrivSpelling where
+  | read (g : Render.Gap) (w : Str)
+  | write (g : Render.Gap) (w : Str)
+  | allPrivileges (g1 : Render.Gap) (w1 : Str) (g2 : Render.Gap) (w2 : Str)
+  | all (g : Render.Gap) (w : Str)
+
+def PrivSpelling.pieces : PrivSpelling → List (Render.Gap × Piece)
+  | .read g w => [(g, .kw .READ w)]
+  | .write g w => [(g, .kw .WRITE w)]
+  | .allPrivileges g1 w1 g2 w2 => [(g1, .kw .ALL w1), (g2, .kw .PRIVILEGES w2)]
+  | .all g w => [(g, .kw .ALL w)]
+
+/-- The privilege denoted. -/
+def PrivSpelling.priv : PrivSpelling → Privilege
+  | .read _ _ => .read
+  | .write _ _ => .write
+  | .allPrivileges _ _ _ _ => .all
+  | .all _ _ => .all
+
+/-- `parsePrivilege` on a freely spelled privilege followed by a piece that is not `PRIVILEGES`
+(after `ALL` alone the next token is looked at and pushed back: the parser is `Around` the rest). -/
+theorem parsePrivilege_render (s : PState) (ps : PrivSpelling) (g : Render.Gap) (p : Piece) (l : List (Render.Gap × Piece))
+    (k : Str) (hne : p.tok ≠ .PRIVILEGES) (hL : Legal (ps.pieces ++ (g, p) :: l) k)
+    (hs : s.Before (render (ps.pieces ++ (g, p) :: l) ++ k)) :
+    ∃ s', parsePrivilege.run s = .ok (ps.priv, s') ∧ s'.Around (render ((g, p) :: l) ++ k) := by
+  cases ps with
+  | read g0 w =>
+    obtain ⟨lx, s1, h1, t1, _, b1⟩ := step s g0 (.kw .READ w) _ k hL hs.around
+    refine ⟨s1, ?_, b1.around⟩
+    unfold parsePrivilege
+    rw [P.run_bind _ _ s lx s1 h1]
+    simp only [t1, Piece.tok]
+    rfl
+  | write g0 w =>
+    obtain ⟨lx, s1, h1, t1, _, b1⟩ := step s g0 (.kw .WRITE w) _ k hL hs.around
+    refine ⟨s1, ?_, b1.around⟩
+    unfold parsePrivilege
+    rw [P.run_bind _ _ s lx s1 h1]
+    simp only [t1, Piece.tok]
+    rfl
+  | allPrivileges g1 w1 g2 w2 =>
+    obtain ⟨lx, s1, h1, t1, _, b1⟩ := step s g1 (.kw .ALL w1) _ k hL hs.around
+    obtain ⟨lx2, s2, h2, t2, _, b2⟩ := step s1 g2 (.kw .PRIVILEGES w2) _ k hL.tail b1.around
+    refine ⟨s2, ?_, b2.around⟩
+    unfold parsePrivilege
+    rw [P.run_bind _ _ s lx s1 h1]
+    simp only [t1, Piece.tok]
+    rw [P.run_bind _ _ s1 lx2 s2 h2]
+    simp only [t2, Piece.tok, ne_eq, not_true_eq_false, if_false]
+    rfl
+  | all g0 w =>
+    obtain ⟨lx, s1, h1, t1, _, b1⟩ := step s g0 (.kw .ALL w) _ k hL hs.around
+    obtain ⟨lx2, s2, h2, t2, _, _⟩ := step s1 g p l k hL.tail b1.around
+    refine ⟨{ s2 with n := s2.n + 1 }, ?_, s1, b1, Or.inr ⟨lx2, s2, h2, rfl⟩⟩
+    have hne2 : lx2.tok ≠ .PRIVILEGES := by rw [t2]; exact hne
+    unfold parsePrivilege
+    rw [P.run_bind _ _ s lx s1 h1]
+    simp only [t1, Piece.tok]
+    rw [P.run_bind _ _ s1 lx2 s2 h2]
+    simp only [ne_eq, hne2, not_false_eq_true, if_true]
+    rw [P.run_bind _ _ s2 () _ (unscan_run s2)]
+    rfl
+
+/-- `<privilege> ON <db> TO <user>`. -/
+def grantPieces (ps : PrivSpelling) (g1 : Render.Gap) (w1 : Str) (g2 : Render.Gap) (sp1 : NameSpelling) (g3 : Render.Gap) (w2 : Str)
+    (g4 : Render.Gap) (sp2 : NameSpelling) (on user : Str) : List (Render.Gap × Piece) :=
+  ps.pieces ++ [(g1, .kw .ON w1), (g2, .name sp1 on), (g3, .kw .TO w2), (g4, .name sp2 user)]
+
+/-- `ALL [PRIVILEGES] TO <user>`. -/
+def grantAdminPieces (ps : PrivSpelling) (g1 : Render.Gap) (w : Str) (g2 : Render.Gap) (sp : NameSpelling) (user : Str) :
+    List (Render.Gap × Piece) :=
+  ps.pieces ++ [(g1, .kw .TO w), (g2, .name sp user)]
+
+/-- **GRANT <privilege> ON <db> TO <user> in free spelling** (`READ`, `WRITE`, `ALL`, `ALL PRIVILEGES`). -/
+theorem grant_render_parse (fuel : Nat) (s : PState) (ps : PrivSpelling) (g1 : Render.Gap) (w1 : Str) (g2 : Render.Gap)
+    (sp1 : NameSpelling) (g3 : Render.Gap) (w2 : Str) (g4 : Render.Gap) (sp2 : NameSpelling) (on user k : Str)
+    (hL : Legal (grantPieces ps g1 w1 g2 sp1 g3 w2 g4 sp2 on user) k)
+    (hs : s.Before (render (grantPieces ps g1 w1 g2 sp1 g3 w2 g4 sp2 on user) ++ k)) :
+    ∃ s', (runHandler fuel .parseGrantStatement).run s = .ok (.grant ps.priv on user, s') ∧ s'.Before k := by
+  have hL' := ((legal_append _ _ _).mp hL).2
+  obtain ⟨s1, h1, b1⟩ := parsePrivilege_render s ps g1 (.kw .ON w1) _ k (by simp [Piece.tok]) hL hs
+  obtain ⟨lx, s2, h2, t2, _, b2⟩ := step s1 g1 (.kw .ON w1) _ k hL' b1
+  obtain ⟨s3, h3, b3⟩ := parseIdent_of (name := on) (step s2 g2 _ _ k hL'.tail b2.around)
+  obtain ⟨s4, h4, b4⟩ := expectTok_of (t := .TO) (L := []) ["TO"] (step s3 g3 _ _ k hL'.tail.tail b3.around)
+  obtain ⟨s5, h5, b5⟩ := parseIdent_of (name := user) (step s4 g4 _ _ k hL'.tail.tail.tail b4.around)
+  refine ⟨s5, ?_, b5⟩
+  simp only [runHandler, parseGrant]
+  rw [P.run_bind _ _ s ps.priv s1 h1, P.run_bind _ _ s1 lx s2 h2]
+  simp only [t2, Piece.tok, if_true]
+  rw [P.run_bind _ _ s2 on s3 h3, P.run_bind _ _ s3 () s4 h4, P.run_bind _ _ s4 user s5 h5]
+  rfl
+
+/-- **GRANT ALL [PRIVILEGES] TO <user> in free spelling.** -/
+theorem grantAdmin_render_parse (fuel : Nat) (s : PState) (ps : PrivSpelling) (hp : ps.priv = .all) (g1 : Render.Gap) (w : Str)
+    (g2 : Render.Gap) (sp : NameSpelling) (user k : Str) (hL : Legal (grantAdminPieces ps g1 w g2 sp user) k)
+    (hs : s.Before (render (grantAdminPieces ps g1 w g2 sp user) ++ k)) :
+    ∃ s', (runHandler fuel .parseGrantStatement).run s = .ok (.grantAdmin user, s') ∧ s'.Before k := by
+  have hL' := ((legal_append _ _ _).mp hL).2
+  obtain ⟨s1, h1, b1⟩ := parsePrivilege_render s ps g1 (.kw .TO w) _ k (by simp [Piece.tok]) hL hs
+  obtain ⟨lx, s2, h2, t2, _, b2⟩ := step s1 g1 (.kw .TO w) _ k hL' b1
+  obtain ⟨s3, h3, b3⟩ := parseIdent_of (name := user) (step s2 g2 _ _ k hL'.tail b2.around)
+  refine ⟨s3, ?_, b3⟩
+  simp only [runHandler, parseGrant]
+  rw [P.run_bind _ _ s ps.priv s1 h1, P.run_bind _ _ s1 lx s2 h2]
+  simp only [t2, Piece.tok, hp, reduceCtorEq, if_false, if_true, ne_eq, not_true_eq_false]
+  rw [P.run_bind _ _ s2 user s3 h3]
+  rfl
+
+/-- `<privilege> ON <db> FROM <user>`. -/
+def revokePieces (ps : PrivSpelling) (g1 : Render.Gap) (w1 : Str) (g2 : Render.Gap) (sp1 : NameSpelling) (g3 : Render.Gap) (w2 : Str)
+    (g4 : Render.Gap) (sp2 : NameSpelling) (on user : Str) : List (Render.Gap × Piece) :=
+  ps.pieces ++ [(g1, .kw .ON w1), (g2, .name sp1 on), (g3, .kw .FROM w2), (g4, .name sp2 user)]
+
+/-- `ALL [PRIVILEGES] FROM <user>`. -/
+def revokeAdminPieces (ps : PrivSpelling) (g1 : Render.Gap) (w : Str) (g2 : Render.Gap) (sp : NameSpelling) (user : Str) :
+    List (Render.Gap × Piece) :=
+  ps.pieces ++ [(g1, .kw .FROM w), (g2, .name sp user)]
+
+/-- **REVOKE <privilege> ON <db> FROM <user> in free spelling.** -/
+theorem revoke_render_parse (fuel : Nat) (s : PState) (ps : PrivSpelling) (g1 : Render.Gap) (w1 : Str) (g2 : Render.Gap)
+    (sp1 : NameSpelling) (g3 : Render.Gap) (w2 : Str) (g4 : Render.Gap) (sp2 : NameSpelling) (on user k : Str)
+    (hL : Legal (revokePieces ps g1 w1 g2 sp1 g3 w2 g4 sp2 on user) k)
+    (hs : s.Before (render (revokePieces ps g1 w1 g2 sp1 g3 w2 g4 sp2 on user) ++ k)) :
+    ∃ s', (runHandler fuel .parseRevokeStatement).run s = .ok (.revoke ps.priv on user, s') ∧ s'.Before k := by
+  have hL' := ((legal_append _ _ _).mp hL).2
+  obtain ⟨s1, h1, b1⟩ := parsePrivilege_render s ps g1 (.kw .ON w1) _ k (by simp [Piece.tok]) hL hs
+  obtain ⟨lx, s2, h2, t2, _, b2⟩ := step s1 g1 (.kw .ON w1) _ k hL' b1
+  obtain ⟨s3, h3, b3⟩ := parseIdent_of (name := on) (step s2 g2 _ _ k hL'.tail b2.around)
+  obtain ⟨s4, h4, b4⟩ := expectTok_of (t := .FROM) (L := []) ["FROM"] (step s3 g3 _ _ k hL'.tail.tail b3.around)
+  obtain ⟨s5, h5, b5⟩ := parseIdent_of (name := user) (step s4 g4 _ _ k hL'.tail.tail.tail b4.around)
+  refine ⟨s5, ?_, b5⟩
+  simp only [runHandler, parseRevoke]
+  rw [P.run_bind _ _ s ps.priv s1 h1, P.run_bind _ _ s1 lx s2 h2]
+  simp only [t2, Piece.tok, if_true]
+  rw [P.run_bind _ _ s2 on s3 h3, P.run_bind _ _ s3 () s4 h4, P.run_bind _ _ s4 user s5 h5]
+  rfl
+
+/-- **REVOKE ALL [PRIVILEGES] FROM <user> in free spelling.** -/
+theorem revokeAdmin_render_parse (fuel : Nat) (s : PState) (ps : PrivSpelling) (hp : ps.priv = .all) (g1 : Render.Gap) (w : Str)
+    (g2 : Render.Gap) (sp : NameSpelling) (user k : Str) (hL : Legal (revokeAdminPieces ps g1 w g2 sp user) k)
+    (hs : s.Before (render (revokeAdminPieces ps g1 w g2 sp user) ++ k)) :
+    ∃ s', (runHandler fuel .parseRevokeStatement).run s = .ok (.revokeAdmin user, s') ∧ s'.Before k := by
+  have hL' := ((legal_append _ _ _).mp hL).2
+  obtain ⟨s1, h1, b1⟩ := parsePrivilege_render s ps g1 (.kw .FROM w) _ k (by simp [Piece.tok]) hL hs
+  obtain ⟨lx, s2, h2, t2, _, b2⟩ := step s1 g1 (.kw .FROM w) _ k hL' b1
+  obtain ⟨s3, h3, b3⟩ := parseIdent_of (name := user) (step s2 g2 _ _ k hL'.tail b2.around)
+  refine ⟨s3, ?_, b3⟩
+  simp only [runHandler, parseRevoke]
+  rw [P.run_bind _ _ s ps.priv s1 h1, P.run_bind _ _ s1 lx s2 h2]
+  simp only [t2, Piece.tok, hp, reduceCtorEq, if_false, if_true, ne_eq, not_true_eq_false]
+  rw [P.run_bind _ _ s2 user s3 h3]
+  rfl
+
+/-- **GRANT / REVOKE, from the first character**: the four statement forms. -/
+theorem grantRevoke_statement_render_parse (text : Str) (params : List (Str × BoundValue)) (tbl : List (Char × Char))
+    (g0 : Render.Gap) (w0 : Str) (ps : PrivSpelling) (g1 : Render.Gap) (w1 : Str) (g2 : Render.Gap) (sp1 : NameSpelling) (g3 : Render.Gap)
+    (w2 : Str) (g4 : Render.Gap) (sp2 : NameSpelling) (on user k' : Str) :
+    (foldCR text = render (kwPieces [.GRANT] [(g0, w0)] ++ grantPieces ps g1 w1 g2 sp1 g3 w2 g4 sp2 on user) ++ k' →
+      Legal (kwPieces [.GRANT] [(g0, w0)] ++ grantPieces ps g1 w1 g2 sp1 g3 w2 g4 sp2 on user) (k' ++ [eofRune]) →
+      parseStatementText text params tbl = .ok (.grant ps.priv on user)) ∧
+    (foldCR text = render (kwPieces [.REVOKE] [(g0, w0)] ++ revokePieces ps g1 w1 g2 sp1 g3 w2 g4 sp2 on user) ++ k' →
+      Legal (kwPieces [.REVOKE] [(g0, w0)] ++ revokePieces ps g1 w1 g2 sp1 g3 w2 g4 sp2 on user) (k' ++ [eofRune]) →
+      parseStatementText text params tbl = .ok (.revoke ps.priv on user)) ∧
+    (ps.priv = .all →
+      foldCR text = render (kwPieces [.GRANT] [(g0, w0)] ++ grantAdminPieces ps g1 w1 g2 sp1 user) ++ k' →
+      Legal (kwPieces [.GRANT] [(g0, w0)] ++ grantAdminPieces ps g1 w1 g2 sp1 user) (k' ++ [eofRune]) →
+      parseStatementText text params tbl = .ok (.grantAdmin user)) ∧
+    (ps.priv = .all →
+      foldCR text = render (kwPieces [.REVOKE] [(g0, w0)] ++ revokeAdminPieces ps g1 w1 g2 sp1 user) ++ k' →
+      Legal (kwPieces [.REVOKE] [(g0, w0)] ++ revokeAdminPieces ps g1 w1 g2 sp1 user) (k' ++ [eofRune]) →
+      parseStatementText text params tbl = .ok (.revokeAdmin user)) := by
+  refine ⟨?_, ?_, ?_, ?_⟩
+  · intro hfold hL
+    refine statement_of_family text params tbl [.GRANT] .parseGrantStatement (by simp [familyPaths]) _ rfl _ k' _
+      hfold hL ?_
+    intro s hs hL2
+    obtain ⟨s', h1, _⟩ := grant_render_parse _ s ps g1 w1 g2 sp1 g3 w2 g4 sp2 on user _ hL2 hs
+    exact ⟨s', h1⟩
+  · intro hfold hL
+    refine statement_of_family text params tbl [.REVOKE] .parseRevokeStatement (by simp [familyPaths]) _ rfl _ k' _
+      hfold hL ?_
+    intro s hs hL2
+    obtain ⟨s', h1, _⟩ := revoke_render_parse _ s ps g1 w1 g2 sp1 g3 w2 g4 sp2 on user _ hL2 hs
+    exact ⟨s', h1⟩
+  · intro hp hfold hL
+    refine statement_of_family text params tbl [.GRANT] .parseGrantStatement (by simp [familyPaths]) _ rfl _ k' _
+      hfold hL ?_
+    intro s hs hL2
+    obtain ⟨s', h1, _⟩ := grantAdmin_render_parse _ s ps hp g1 w1 g2 sp1 user _ hL2 hs
+    exact ⟨s', h1⟩
+  · intro hp hfold hL
+    refine statement_of_family text params tbl [.REVOKE] .parseRevokeStatement (by simp [familyPaths]) _ rfl _ k' _
+      hfold hL ?_
+    intro s hs hL2
+    obtain ⟨s', h1, _⟩ := revokeAdmin_render_parse _ s ps hp g1 w1 g2 sp1 user _ hL2 hs
+    exact ⟨s', h1⟩
+
 /-! ### non-vacuity of the first families -/
 
 /-- `dRoP  /* c */ dataBASE⇥"a b"`: mixed case, two blanks + a block comment + a blank, a tab, a quoted name. -/
@@ -821,5 +1022,22 @@ example : parseStatementText "Create User \"jo e\" with PASSWORD 'it\\'s'\nWITH 
     "jo e".toList "it's".toList [] (by decide +kernel) ?_ (by simp)
   exact legal_of_spaced _ _ _ _ (by decide +kernel) (by decide +kernel) (by decide +kernel)
     (fun q _ => q.2.endOK_eof)
+
+/-- `grant ALL on "select" to alice` (`ALL` without `PRIVILEGES`) and `REVOKE all  privileges FROM "a b"`. -/
+example : parseStatementText "grant ALL on \"select\" to alice".toList [] [] =
+      .ok (.grant .all "select".toList "alice".toList) ∧
+    parseStatementText "REVOKE all  privileges FROM \"a b\"".toList [] [] = .ok (.revokeAdmin "a b".toList) := by
+  constructor
+  · refine (grantRevoke_statement_render_parse _ [] [] [] "grant".toList (.all [.ws ' '] "ALL".toList)
+      [.ws ' '] "on".toList [.ws ' '] .quoted [.ws ' '] "to".toList [.ws ' '] .bare "select".toList "alice".toList []).1
+      (by decide +kernel) ?_
+    exact legal_of_spaced _ _ _ _ (by decide +kernel) (by decide +kernel) (by decide +kernel)
+      (fun q _ => q.2.endOK_eof)
+  · refine (grantRevoke_statement_render_parse _ [] [] [] "REVOKE".toList
+      (.allPrivileges [.ws ' '] "all".toList [.ws ' ', .ws ' '] "privileges".toList)
+      [.ws ' '] "FROM".toList [.ws ' '] .quoted [] [] [] .bare [] "a b".toList []).2.2.2 rfl
+      (by decide +kernel) ?_
+    exact legal_of_spaced _ _ _ _ (by decide +kernel) (by decide +kernel) (by decide +kernel)
+      (fun q _ => q.2.endOK_eof)
 
 end InfluxQL.C01
